@@ -10,16 +10,26 @@
 (* the age of its first record reaches the setting in force, when the      *)
 (* worker's timed wait on the queue expires, or when the sender is stopped.*)
 (*                                                                         *)
-(* A record is [id, time, bytes, ...]: bytes = its encoding (opaque here:  *)
-(* the pack layer defines it), time = the caller-supplied record time      *)
-(* (virtual; >= 1, 0 means "unset" in the implementation).                 *)
+(* A record is [id, time, bytes, ok, ...]: bytes = its encoding (opaque    *)
+(* here: the pack layer defines it), time = the caller-supplied record     *)
+(* time (virtual; >= 1, 0 means "unset" in the implementation), ok = the   *)
+(* pack layer can encode it.  A record that cannot be encoded (ok = FALSE: *)
+(* e.g. built without its tag map, or a nil pointer) can be handed over    *)
+(* like any other; it cannot be emitted "decodably", so it is REFUSED at   *)
+(* the step that would encode it and must leave no trace: nothing written, *)
+(* nothing counted, the records around it emitted as if it had never been  *)
+(* offered (WRefuse).  SendDirect may skip it the same way or abort the    *)
+(* call there (the caller is told: the failure propagates to it); an       *)
+(* aborted call has handed over whole packs only, the rest of its argument *)
+(* was never accepted (DirectAbort).                                       *)
 (*                                                                         *)
 (* The owner of the reusable buffer (the worker goroutine in queue mode,   *)
 (* the caller of Append otherwise) is a little program; there is ONE       *)
 (* ACTION PER STEP of it (wpc):                                            *)
 (*   top   the select on the context: cancellation seen or not             *)
 (*   get   the timed wait on the queue: a record (-> app) or expiry        *)
-(*   app   encode the record at the end of the buffer, count it (-> dec)   *)
+(*   app   encode the record at the end of the buffer, count it (-> dec);  *)
+(*         a record that cannot be encoded is refused (-> where it came)   *)
 (*   dec   note the first time, decide whether the batch is due            *)
 (*   flush build the pack from the buffer bytes, gzip, HAND OVER (-> sent) *)
 (*   sent  the client returned: reset buffer, counter, first time          *)
@@ -55,10 +65,29 @@
 (* moment; a waiting time <= 0 has no meaning as a threshold and is not    *)
 (* demanded).  The deciding step therefore takes a decision `fl` that      *)
 (* must be TRUE when MustFlush holds and is free otherwise.                *)
+(*                                                                         *)
+(* The waiting time also bounds the worker's timed wait on an idle queue   *)
+(* (the only thing that flushes a batch no further record follows).  Real  *)
+(* time enters as TICKS of a reference clock: one Tick = one full period   *)
+(* of the waiting time in force (at least MinPeriod) has passed.  A timed  *)
+(* wait that began with a waiting time in force ends (a record taken, or   *)
+(* expiry -> flush) before more than IdleSlack such periods have passed:   *)
+(* time cannot advance beyond that while the worker is still waiting       *)
+(* (Tick is disabled).  A configuration update restarts the count: the     *)
+(* wait in progress may have begun under the old waiting time.  A waiting  *)
+(* time <= 0 demands nothing.                                              *)
+(*                                                                         *)
+(* The sender is created without a context, with a context alone, or with  *)
+(* a context and its cancel function (ctxk); it is stopped through its own *)
+(* cancel function, through the cancel function that was passed in, or by  *)
+(* cancelling the context that was passed in (or an ancestor of it): every *)
+(* one of these is THE stop request.                                       *)
 (***************************************************************************)
 EXTENDS Integers, Sequences, FiniteSets
 
-CONSTANTS Design, StopPolicy, Creation
+CONSTANTS Design, StopPolicy, Creation,
+          IdleSlack,    \* full reference periods that may pass inside one timed wait of the worker
+          MinPeriod     \* the reference period is the waiting time in force, but at least this (ms)
 
 Defaults == [maxBuf |-> 65536, maxWait |-> 5000, zipMin |-> 100, qCap |-> 1000]
 Zeroed   == [maxBuf |-> 0, maxWait |-> 0, zipMin |-> 0, qCap |-> 0]
@@ -68,6 +97,8 @@ Resolve(g) == [k \in DOMAIN Defaults |-> IF k \in DOMAIN g THEN g[k] ELSE Defaul
 
 VARIABLES
   mode,        \* "none" (not created) | "queue" (worker goroutine) | "direct" (no queue, no worker)
+  ctxk,        \* what the creator passed: "none" | "ctx" (a context, no cancel function) | "both"
+  ticks,       \* full reference periods passed since the worker's timed wait (or the waiting time in force) began
   settings,    \* the four settings in force
   configured,  \* has anything (explicit creation settings, ApplyConfig) overridden the defaults?
   queue,       \* records waiting for the worker
@@ -86,12 +117,16 @@ VARIABLES
   emitted,     \* packs handed to the client, in hand-over order
   stopped      \* "no" | "cancelling" (cancel called, not yet returned) | "stopping" (context cancelled)
 
-vars == <<mode, settings, configured, queue, accB, refused, mem, blen, live, count, firstTime, wpc, wcur, wret,
+vars == <<mode, ctxk, ticks, settings, configured, queue, accB, refused, mem, blen, live, count, firstTime, wpc, wcur, wret,
           dactive, dq, drid, accD, emitted, stopped>>
 
 -----------------------------------------------------------------------------
 (* bytes *)
 Size(r) == Len(r.bytes)
+
+\* the records of rs the pack layer can encode, in order
+IsOk(r)  == r.ok
+Good(rs) == SelectSeq(rs, IsOk)
 
 \* (index recursion / halving: Tail and one-by-one concatenation copy the rest at every level)
 RECURSIVE SumTo(_, _)
@@ -132,17 +167,18 @@ Content(p) == IF p.view = <<>> THEN p.snap ELSE SubSeq(mem[p.view[1]], 1, p.view
 
 -----------------------------------------------------------------------------
 Init ==
-  /\ mode = "none" /\ settings = Defaults /\ configured = FALSE
+  /\ mode = "none" /\ ctxk = "none" /\ ticks = 0 /\ settings = Defaults /\ configured = FALSE
   /\ queue = <<>> /\ accB = <<>> /\ refused = {}
   /\ mem = << <<>> >> /\ blen = 0 /\ live = <<>> /\ count = 0 /\ firstTime = 0
   /\ wpc = "off" /\ wcur = <<>> /\ wret = "off"
   /\ dactive = FALSE /\ dq = <<>> /\ drid = 0 /\ accD = <<>>
   /\ emitted = <<>> /\ stopped = "no"
 
-\* creation: given = FALSE (nothing supplied: the built-in defaults stay in force) or four explicit settings s
-New(m, given, s) ==
-  /\ mode = "none" /\ m \in {"queue", "direct"}
-  /\ mode' = m
+\* creation: given = FALSE (nothing supplied: the built-in defaults stay in force) or four explicit settings s;
+\* ck = what is passed as context
+New(m, given, s, ck) ==
+  /\ mode = "none" /\ m \in {"queue", "direct"} /\ ck \in {"none", "ctx", "both"}
+  /\ mode' = m /\ ctxk' = ck /\ UNCHANGED ticks
   /\ wpc' = IF m = "queue" THEN "top" ELSE "off"
   /\ IF given THEN settings' = s /\ configured' = TRUE
      ELSE IF Creation = "zeroed" THEN settings' = Zeroed /\ UNCHANGED configured
@@ -153,8 +189,8 @@ New(m, given, s) ==
 \* a configuration update naming the settings in DOMAIN g
 ApplyConfig(g) ==
   /\ mode # "none"
-  /\ settings' = Resolve(g) /\ configured' = TRUE
-  /\ UNCHANGED <<mode, queue, accB, refused, mem, blen, live, count, firstTime, wpc, wcur, wret,
+  /\ settings' = Resolve(g) /\ configured' = TRUE /\ ticks' = 0
+  /\ UNCHANGED <<mode, ctxk, queue, accB, refused, mem, blen, live, count, firstTime, wpc, wcur, wret,
                  dactive, dq, drid, accD, emitted, stopped>>
 
 QueueHasRoom == settings.qCap <= 0 \/ Len(queue) < settings.qCap
@@ -163,19 +199,24 @@ QueueHasRoom == settings.qCap <= 0 \/ Len(queue) < settings.qCap
 Add(r) ==
   /\ mode = "queue" /\ stopped = "no"
   /\ IF QueueHasRoom
-       THEN queue' = Append(queue, r) /\ accB' = Append(accB, r) /\ UNCHANGED refused
+       THEN queue' = Append(queue, r) /\ accB' = (IF r.ok THEN Append(accB, r) ELSE accB) /\ UNCHANGED refused
        ELSE refused' = refused \cup {r.id} /\ UNCHANGED <<queue, accB>>
-  /\ UNCHANGED <<mode, settings, configured, mem, blen, live, count, firstTime, wpc, wcur, wret,
+  /\ UNCHANGED <<mode, ctxk, ticks, settings, configured, mem, blen, live, count, firstTime, wpc, wcur, wret,
                  dactive, dq, drid, accD, emitted, stopped>>
 
 \* the stop request: cancel() is called ... and has returned
-StopCall ==
+\* via = "own" (the sender's own cancel function), "given" (the cancel function passed at creation),
+\* "parent" (the context passed at creation, or an ancestor of it, is cancelled by its owner)
+StopCall(via) ==
   /\ mode = "queue" /\ stopped = "no" /\ stopped' = "cancelling"
-  /\ UNCHANGED <<mode, settings, configured, queue, accB, refused, mem, blen, live, count, firstTime, wpc, wcur, wret,
+  /\ \/ via = "own"
+     \/ via = "given" /\ ctxk = "both"
+     \/ via = "parent" /\ ctxk \in {"ctx", "both"}
+  /\ UNCHANGED <<mode, ctxk, ticks, settings, configured, queue, accB, refused, mem, blen, live, count, firstTime, wpc, wcur, wret,
                  dactive, dq, drid, accD, emitted>>
 StopRet ==
   /\ stopped = "cancelling" /\ stopped' = "stopping"
-  /\ UNCHANGED <<mode, settings, configured, queue, accB, refused, mem, blen, live, count, firstTime, wpc, wcur, wret,
+  /\ UNCHANGED <<mode, ctxk, ticks, settings, configured, queue, accB, refused, mem, blen, live, count, firstTime, wpc, wcur, wret,
                  dactive, dq, drid, accD, emitted>>
 
 -----------------------------------------------------------------------------
@@ -190,7 +231,8 @@ MustFlush(n, ft, r) == SizeDue(n) \/ TimeDue(ft, r)
 GoFlush(ret) == IF live = <<>> THEN wpc' = ret /\ UNCHANGED wret
                 ELSE wpc' = "flush" /\ wret' = ret
 
-wOnly == <<mode, settings, configured, accB, refused, dactive, dq, drid, accD, stopped>>
+wOnly == <<mode, ctxk, settings, configured, accB, refused, dactive, dq, drid, accD, stopped>>
+wRest == <<wOnly, ticks>>
 
 \* the select: st = the stop state at the moment of the select; a completed cancellation is seen,
 \* no cancellation is not; saw = the branch taken
@@ -200,6 +242,7 @@ WTop(saw, st) ==
   /\ IF ~saw THEN wpc' = "get" /\ UNCHANGED wret
      ELSE IF StopPolicy = "drain" THEN wpc' = "drain" /\ UNCHANGED wret
      ELSE GoFlush("fin")
+  /\ ticks' = 0
   /\ UNCHANGED <<queue, mem, blen, live, count, firstTime, wcur, emitted>> /\ UNCHANGED wOnly
 
 \* the timed wait returned the head of the queue
@@ -207,30 +250,36 @@ WTake ==
   /\ wpc \in {"get", "drain"} /\ queue # <<>>
   /\ wcur' = <<Head(queue)>> /\ queue' = Tail(queue)
   /\ wpc' = "app" /\ wret' = IF wpc = "get" THEN "top" ELSE "drain"
-  /\ UNCHANGED <<mem, blen, live, count, firstTime, emitted>> /\ UNCHANGED wOnly
+  /\ UNCHANGED <<mem, blen, live, count, firstTime, emitted>> /\ UNCHANGED wRest
 
 \* the timed wait expired (decided at its last poll: no guard on the queue)
 WIdle ==
   /\ wpc = "get"
   /\ GoFlush("top")
-  /\ UNCHANGED <<queue, mem, blen, live, count, firstTime, wcur, emitted>> /\ UNCHANGED wOnly
+  /\ UNCHANGED <<queue, mem, blen, live, count, firstTime, wcur, emitted>> /\ UNCHANGED wRest
 
 \* Append(r) called from outside (no worker owns the buffer)
 AppendCall(r) ==
   /\ mode = "direct" /\ wpc = "off"
-  /\ wcur' = <<r>> /\ accB' = Append(accB, r) /\ wpc' = "app" /\ wret' = "off"
-  /\ UNCHANGED <<mode, settings, configured, queue, refused, mem, blen, live, count, firstTime,
+  /\ wcur' = <<r>> /\ accB' = (IF r.ok THEN Append(accB, r) ELSE accB) /\ wpc' = "app" /\ wret' = "off"
+  /\ UNCHANGED <<mode, ctxk, ticks, settings, configured, queue, refused, mem, blen, live, count, firstTime,
                  dactive, dq, drid, accD, emitted, stopped>>
+
+\* the record cannot be encoded: it is refused -- nothing written, nothing counted, back to where the append came from
+WRefuse ==
+  /\ wpc = "app" /\ ~wcur[1].ok
+  /\ wcur' = <<>> /\ wpc' = wret
+  /\ UNCHANGED <<queue, mem, blen, live, count, firstTime, wret, emitted>> /\ UNCHANGED wRest
 
 \* encode at the end of the buffer, count
 WAppend ==
-  /\ wpc = "app"
+  /\ wpc = "app" /\ wcur[1].ok
   /\ LET r == wcur[1]
      IN /\ mem' = [mem EXCEPT ![1] = WriteAt(@, blen, r.bytes)]
         /\ blen' = blen + Size(r) /\ live' = Append(live, r) /\ count' = count + 1
         /\ wcur' = <<>>
         /\ wpc' = "dec"
-  /\ UNCHANGED <<queue, firstTime, wret, emitted>> /\ UNCHANGED wOnly
+  /\ UNCHANGED <<queue, firstTime, wret, emitted>> /\ UNCHANGED wRest
 
 \* note the first time, decide with the settings in force NOW (fl: see the header)
 WDecide(fl) ==
@@ -240,7 +289,7 @@ WDecide(fl) ==
      IN /\ MustFlush(blen, ft, r) => fl
         /\ firstTime' = ft
         /\ wpc' = IF fl THEN "flush" ELSE wret
-  /\ UNCHANGED <<queue, mem, blen, live, count, wcur, wret, emitted>> /\ UNCHANGED wOnly
+  /\ UNCHANGED <<queue, mem, blen, live, count, wcur, wret, emitted>> /\ UNCHANGED wRest
 
 \* drained: nothing is queued any more
 Drained == wpc = "drain" /\ queue = <<>>
@@ -248,7 +297,7 @@ Drained == wpc = "drain" /\ queue = <<>>
 \* the hand-over of the reusable buffer's content.  k = the client keeps the pack
 WSend(k) ==
   /\ (wpc = "flush" \/ (Drained /\ live # <<>>))
-  /\ UNCHANGED <<queue, mem, blen, live, count, firstTime, wcur>> /\ UNCHANGED wOnly
+  /\ UNCHANGED <<queue, mem, blen, live, count, firstTime, wcur>> /\ UNCHANGED wRest
   /\ emitted' = Append(emitted, Pack("b", live, count, 1, blen, k))
   /\ wpc' = "sent" /\ wret' = IF wpc = "flush" THEN wret ELSE "fin"
 
@@ -257,44 +306,71 @@ WReset ==
   /\ wpc = "sent"
   /\ blen' = 0 /\ live' = <<>> /\ count' = 0 /\ firstTime' = 0
   /\ wpc' = wret
-  /\ UNCHANGED <<queue, mem, wcur, wret, emitted>> /\ UNCHANGED wOnly
+  /\ UNCHANGED <<queue, mem, wcur, wret, emitted>> /\ UNCHANGED wRest
 
 \* the worker returns
 WExit ==
   /\ (wpc = "fin" \/ (Drained /\ live = <<>>))
   /\ wpc' = "done"
-  /\ UNCHANGED <<queue, mem, blen, live, count, firstTime, wcur, wret, emitted>> /\ UNCHANGED wOnly
+  /\ UNCHANGED <<queue, mem, blen, live, count, firstTime, wcur, wret, emitted>> /\ UNCHANGED wRest
 
 -----------------------------------------------------------------------------
 (* SendDirect(rs): a fresh call-local buffer, handed over whenever it reaches maxBuf and at the end *)
 DirectBegin(rs) ==
   /\ mode # "none" /\ ~dactive
-  /\ dactive' = TRUE /\ dq' = rs /\ accD' = accD \o rs
+  /\ dactive' = TRUE /\ dq' = rs /\ accD' = accD \o Good(rs)
   /\ mem' = Append(mem, <<>>) /\ drid' = Len(mem) + 1
-  /\ UNCHANGED <<mode, settings, configured, queue, accB, refused, blen, live, count, firstTime, wpc, wcur, wret,
+  /\ UNCHANGED <<mode, ctxk, ticks, settings, configured, queue, accB, refused, blen, live, count, firstTime, wpc, wcur, wret,
                  emitted, stopped>>
 
-\* how many of rs go into the next pack: up to and including the one that reaches the limit
+\* how much of rs the next pack consumes: up to and including the (encodable) record that reaches the limit;
+\* a record that cannot be encoded contributes nothing
 RECURSIVE PrefixLen(_, _, _)
 PrefixLen(rs, i, acc) ==
   IF i > Len(rs) THEN Len(rs)
+  ELSE IF ~rs[i].ok THEN PrefixLen(rs, i + 1, acc)
   ELSE IF SizeDue(acc + Size(rs[i])) THEN i ELSE PrefixLen(rs, i + 1, acc + Size(rs[i]))
 
+\* the next pack of the call: the encodable records among the consumed ones (the others are skipped)
 DSend(k) ==
   /\ dactive /\ dq # <<>>
   /\ LET n  == PrefixLen(dq, 1, 0)
-         b  == SubSeq(dq, 1, n)
-     IN /\ mem' = [mem EXCEPT ![drid] = WriteAt(@, 0, Encoding(b))]
-        /\ emitted' = Append(emitted, Pack("d", b, n, drid, SumSize(b), k))
+         b  == Good(SubSeq(dq, 1, n))
+     IN /\ b # <<>>
+        /\ mem' = [mem EXCEPT ![drid] = WriteAt(@, 0, Encoding(b))]
+        /\ emitted' = Append(emitted, Pack("d", b, Len(b), drid, SumSize(b), k))
         /\ dq' = SubSeq(dq, n + 1, Len(dq))
-  /\ UNCHANGED <<mode, settings, configured, queue, accB, refused, blen, live, count, firstTime, wpc, wcur, wret,
+  /\ UNCHANGED <<mode, ctxk, ticks, settings, configured, queue, accB, refused, blen, live, count, firstTime, wpc, wcur, wret,
                  dactive, drid, accD, stopped>>
 
+\* the call meets a record that cannot be encoded before the pack in progress is complete and gives up there: the
+\* failure propagates to the caller, what was not handed over yet was never accepted
+DirectAbort ==
+  /\ dactive
+  /\ \E i \in 1..PrefixLen(dq, 1, 0) : ~dq[i].ok
+  /\ dactive' = FALSE /\ dq' = <<>>
+  /\ accD' = SubSeq(accD, 1, Len(accD) - Len(Good(dq)))
+  /\ UNCHANGED <<mode, ctxk, ticks, settings, configured, queue, accB, refused, mem, blen, live, count, firstTime, wpc, wcur, wret,
+                 drid, emitted, stopped>>
+
+\* the call returns: nothing encodable is left
 DirectEnd ==
-  /\ dactive /\ dq = <<>>
-  /\ dactive' = FALSE
-  /\ UNCHANGED <<mode, settings, configured, queue, accB, refused, mem, blen, live, count, firstTime, wpc, wcur, wret,
-                 dq, drid, accD, emitted, stopped>>
+  /\ dactive /\ Good(dq) = <<>>
+  /\ dactive' = FALSE /\ dq' = <<>>
+  /\ UNCHANGED <<mode, ctxk, ticks, settings, configured, queue, accB, refused, mem, blen, live, count, firstTime, wpc, wcur, wret,
+                 drid, accD, emitted, stopped>>
+
+-----------------------------------------------------------------------------
+(* real time: one full reference period p of the waiting time in force has passed *)
+RefPeriod == IF settings.maxWait < MinPeriod THEN MinPeriod ELSE settings.maxWait
+Waiting   == mode = "queue" /\ wpc = "get" /\ settings.maxWait > 0
+
+Tick(p) ==
+  /\ mode # "none"
+  /\ IF Waiting THEN ticks < IdleSlack /\ p = RefPeriod /\ ticks' = ticks + 1
+     ELSE UNCHANGED ticks          \* nobody is inside a timed wait: time just passes
+  /\ UNCHANGED <<mode, ctxk, settings, configured, queue, accB, refused, mem, blen, live, count, firstTime, wpc, wcur, wret,
+                 dactive, dq, drid, accD, emitted, stopped>>
 
 -----------------------------------------------------------------------------
 (* the property *)
@@ -305,15 +381,18 @@ RecsOf(ps, path) ==     \* concatenated record lists of the packs of one path, i
 
 \* every accepted record is, at every moment, in exactly one place and in order:
 \* already emitted, in the buffer, being appended, or still queued; once the worker has
-\* returned nothing is left behind.  A refused record is nowhere.
+\* returned nothing is left behind.  A refused record is nowhere; a record that cannot be encoded is
+\* never in the buffer or in a pack, and the others are where they would be without it.
 ExactlyOnceInOrder ==
-  /\ RecsOf(emitted, "b") \o (IF wpc = "sent" THEN <<>> ELSE live) \o wcur \o queue = accB
-  /\ RecsOf(emitted, "d") \o dq = accD
+  /\ RecsOf(emitted, "b") \o (IF wpc = "sent" THEN <<>> ELSE live) \o Good(wcur \o queue) = accB
+  /\ RecsOf(emitted, "d") \o Good(dq) = accD
   /\ wpc = "done" => queue = <<>> /\ live = <<>>
   /\ ~dactive => dq = <<>>
+  /\ \A i \in 1..Len(live) : live[i].ok
 
 CountMatches ==
-  /\ \A i \in 1..Len(emitted) : emitted[i].n = Len(emitted[i].recs) /\ emitted[i].n > 0
+  /\ \A i \in 1..Len(emitted) : /\ emitted[i].n = Len(emitted[i].recs) /\ emitted[i].n > 0
+                                /\ \A j \in 1..Len(emitted[i].recs) : emitted[i].recs[j].ok
   /\ count = Len(live)
 
 \* at hand-over the payload is exactly the encodings of the pack's records, in order
@@ -336,5 +415,8 @@ HandedOverIsImmutable ==
 FlushWhenDueStep ==
   (wpc = "dec" /\ wpc' \notin {"dec", "flush"}) => ~MustFlush(blen, firstTime', live[Len(live)])
 
-Inv == ExactlyOnceInOrder /\ CountMatches /\ Decodable /\ ZipIff /\ DefaultsInForce /\ HandedOverIsImmutable
+\* the worker's timed wait never outlasts the waiting time in force by more than the slack (Tick is disabled beyond)
+IdleWaitBounded == ticks <= IdleSlack
+
+Inv == ExactlyOnceInOrder /\ CountMatches /\ Decodable /\ ZipIff /\ DefaultsInForce /\ HandedOverIsImmutable /\ IdleWaitBounded
 =============================================================================
